@@ -594,3 +594,36 @@ def install_lying_hook(g, si, plan, on_lie=None):
                 return new
         return res
     g.mutate_response = mutate
+
+
+class VirtualTime(object):
+    """Stand-in for the `time` module global of mutable/servermap.py, retrieve.py, publish.py: their timestamps
+    end up in sets whose iteration order decides e.g. which copy of a duplicated share number is read, so they
+    must not come from the wall clock."""
+
+    def __init__(self, reactor):
+        self._r = reactor
+        self._n = 0
+
+    def time(self):
+        self._n += 1
+        return self._r.seconds() + self._n * 1e-7      # strictly increasing, reproducible
+
+    def __getattr__(self, name):
+        import time as _t
+        return getattr(_t, name)
+
+
+def virtual_time_on():
+    """Install VirtualTime in the mutable modules; returns an undo function."""
+    from vf import env
+    import allmydata.mutable.servermap as a, allmydata.mutable.retrieve as b, allmydata.mutable.publish as c
+    vt = VirtualTime(env.reactor)
+    old = [(m, m.time) for m in (a, b, c)]
+    for m in (a, b, c):
+        m.time = vt
+
+    def undo():
+        for m, t in old:
+            m.time = t
+    return undo
